@@ -513,6 +513,29 @@ theorem visible_packTodo (it : Item) (h : it.packTodo = false) : ∀ x ∈ visib
   | kern k w => simp [visible, Item.packTodo]
   | penalty q => simp [visible, Item.packTodo]
 
+theorem flat_noTodo (p : Params) (pending : Option (List Elem)) (body brk : List Item)
+    (w ind : Int) (pen : Option Int) (hbody : ∀ x ∈ body, x.packTodo = false)
+    (hbrk : ∀ x ∈ brk, x.packTodo = false) :
+    (Line.flat ⟨leftPart p, pendingItems pending, body, brk, .glue 0 p.rightSkip, w, ind, pen⟩).any
+      Item.packTodo = false := by
+  rw [List.any_eq_false]
+  intro x hx
+  simp only [Line.flat, List.mem_append, List.mem_singleton] at hx
+  rcases hx with hx | hx | hx | hx | hx
+  · unfold leftPart at hx
+    split at hx
+    · simp at hx
+    · simp at hx; subst hx; simp [Item.packTodo]
+  · cases pending with
+    | none => simp [pendingItems] at hx
+    | some es =>
+      simp only [pendingItems, List.mem_map] at hx
+      obtain ⟨e, _, rfl⟩ := hx
+      simp [toItem_packTodo]
+  · simp [hbody x hx]
+  · simp [hbrk x hx]
+  · subst hx; simp [Item.packTodo]
+
 /-- The head of a valid break sequence is at most the length of the list. -/
 theorem validFrom_head_le {l : List Item} {lo b : Nat} {rest : List Nat}
     (h : validFrom l lo (b :: rest) = true) : lo ≤ b ∧ b ≤ l.length := by
@@ -605,39 +628,20 @@ theorem go_total (p : Params) (l : List Item) (n : Nat) (hw : p.widths ≠ []) (
       unfold step
       have hcond : ¬¬(start ≤ b ∧ b ≤ l.length) := by simp; omega
       simp only [hcond, if_false, hbp, hk, hwid, hpen]
-      have hall : (({ left := leftPart p, post := pendingItems pending,
-               body := (l.drop start).take (b - start), brk := brk,
-               right := .glue 0 p.rightSkip, width := w,
-               indent := lineIndent p.indents idx, pen := none } : Line).flat).any Item.packTodo = false := by
-        rw [List.any_eq_false]
-        intro x hx
-        simp only [Line.flat, List.mem_append, List.mem_singleton] at hx
-        rcases hx with hx | hx | hx | hx | hx
-        · unfold leftPart at hx
-          split at hx
-          · simp at hx
-          · simp at hx; subst hx; simp [Item.packTodo]
-        · cases pending with
-          | none => simp [pendingItems] at hx
-          | some es =>
-            simp only [pendingItems, List.mem_map] at hx
-            obtain ⟨e, _, rfl⟩ := hx
-            simp [toItem_packTodo]
-        · have := hl x (List.mem_of_mem_drop (List.mem_of_mem_take hx))
-          simp [this]
-        · simp [hbrkTodo x hx]
-        · subst hx; simp [Item.packTodo]
+      have hall := flat_noTodo p pending ((l.drop start).take (b - start)) brk w
+        (lineIndent p.indents idx) none
+        (fun x hx => hl x (List.mem_of_mem_drop (List.mem_of_mem_take hx))) hbrkTodo
       simp only [hall]
       simp
     -- the rest
     cases rest with
     | nil =>
-      exact ⟨[_], by simp only [go, hstep]⟩
+      exact ⟨_, by simp only [go, hstep]; rfl⟩
     | cons nb r =>
       rcases hb with h | h
       · obtain ⟨ls, hls⟩ := ih (idx + 1) (b + 1 + sk + k) pd (b + 1 + sk) h.2.2
           (by intro b' hb'; exact hknext b' hb')
-        exact ⟨_ :: ls, by simp only [go, hstep, hls]⟩
+        exact ⟨_, by rw [go]; simp only [hstep, hls]; rfl⟩
       · cases h.1
 
 end C12
